@@ -207,7 +207,11 @@ def judge(acc, site, case, sig, descs, phase, wq, Hs, Hs_key, commuting, bound_f
 
 
 def raised(acc, site, case, sig, e):
+    """A documented input must not raise. The key keeps only what discriminates exceptions: control shape, presence of an
+    identity term (and the encoding for fermionic input), exception type."""
     acc.ev()
+    parts = [p for p in sig.split("/") if p.startswith("ctl-") or p in ("identity-term", "no-identity", "JW", "BK", "scBK", "JKMN")]
+    sig = "/".join(parts)
     acc.violation(f"{site}/exception/{sig}/{type(e).__name__}", case, {"err": repr(e)[:300], "repro": repro(case)},
                   group=f"{site}/exception")
 
@@ -615,7 +619,8 @@ def plan(tier):
         "conv": {"words": "non-commuting ordered pairs of W2Q" if q else "non-commuting ordered pairs of W2, triples of W2Q with a non-commuting pair",
                  "coefs": "generic two only", "times": "0.3, -0.3", "orders": [4] if q else [4, 6], "steps": "1,2,4",
                  "controls": ["none", "one"]},
-        "ferm": {"generators": 31, "sets": "singles + pairs over a 10-generator subset" if q else "singles + all 465 pairs",
+        "ferm": {"generators": 31, "sets": "singles (4 coefficient/time/dict settings) + pairs over a 10-generator subset (2 settings)" if q
+                 else "singles (2 coefficients x 3 times x scalar/dict) + all 465 pairs (3 settings)",
                  "mappings": ["JW", "BK", "scBK", "JKMN"], "up_then_down": [False, True], "orders": [1, 2],
                  "steps": [1, 2], "controls": "none / [nq] / [nq, nq+1]"},
         "tsu": {"operators": "all W2 singles; ordered pairs of W2Q", "coefs": "3 / cyclic", "times": [0.3, -0.3], "orders": [1, 2],
@@ -717,6 +722,8 @@ def expand(sec, skel, tier, a):
             for utd in (False, True):
                 if k == 1:
                     settings = [([c], [t], td) for c in C[:2] for t in T for td in (False, True)]
+                    if q:
+                        settings = [([C[0]], [0.3], False), ([C[1]], [-0.3], True), ([C[0]], [1.0], True), ([C[1]], [0.3], False)]
                 else:
                     settings = [([C[0], C[1]], [0.3, 0.3], False), ([C[1], C[0]], [0.3, -0.3], True),
                                 ([C[0], C[0]], [-0.3, 1.0], True)]
